@@ -1039,9 +1039,17 @@ void DGXMLScanner::scanDocTypeDecl()
                 unsigned int stringId = fGrammarResolver->getStringPool()->addOrFind(srcUsed->getSystemId());
                 const XMLCh* sysIdStr = fGrammarResolver->getStringPool()->getValueForId(stringId);
 
-                fGrammarResolver->orphanGrammar(XMLUni::fgDTDEntityString);
-                ((XMLDTDDescription*) (fGrammar->getGrammarDescription()))->setSystemId(sysIdStr);
-                fGrammarResolver->putGrammar(fGrammar);
+                // Re-key the placeholder grammar only if we really got OUR grammar back. A locked pool
+                // does not give up the grammar it holds under the placeholder key, and the pool may hold
+                // another parse's placeholder: re-keying in place would leave the registry with a
+                // dangling key and the grammar with two owners.
+                Grammar* orphaned = fGrammarResolver->orphanGrammar(XMLUni::fgDTDEntityString);
+                if (orphaned == fGrammar) {
+                    ((XMLDTDDescription*) (fGrammar->getGrammarDescription()))->setSystemId(sysIdStr);
+                    fGrammarResolver->putGrammar(fGrammar);
+                }
+                else if (orphaned)
+                    fGrammarResolver->putGrammar(orphaned);
             }
 
             //  In order to make the processing work consistently, we have to
@@ -2101,9 +2109,17 @@ Grammar* DGXMLScanner::loadDTDGrammar(const InputSource& src,
         unsigned int sysId = fGrammarResolver->getStringPool()->addOrFind(src.getSystemId());
         const XMLCh* sysIdStr = fGrammarResolver->getStringPool()->getValueForId(sysId);
 
-        fGrammarResolver->orphanGrammar(XMLUni::fgDTDEntityString);
-        ((XMLDTDDescription*) (fGrammar->getGrammarDescription()))->setSystemId(sysIdStr);
-        fGrammarResolver->putGrammar(fGrammar);
+        // Re-key the placeholder grammar only if we really got OUR grammar back. A locked pool
+        // does not give up the grammar it holds under the placeholder key, and the pool may hold
+        // another parse's placeholder: re-keying in place would leave the registry with a
+        // dangling key and the grammar with two owners.
+        Grammar* orphaned = fGrammarResolver->orphanGrammar(XMLUni::fgDTDEntityString);
+        if (orphaned == fGrammar) {
+            ((XMLDTDDescription*) (fGrammar->getGrammarDescription()))->setSystemId(sysIdStr);
+            fGrammarResolver->putGrammar(fGrammar);
+        }
+        else if (orphaned)
+            fGrammarResolver->putGrammar(orphaned);
     }
 
     //  Handle the creation of the XML reader object for this input source.
